@@ -9,6 +9,7 @@ import (
 	"fmt"
 	"os"
 	"path/filepath"
+	"runtime/pprof"
 	"strings"
 	"sync"
 	"testing"
@@ -54,6 +55,8 @@ type variant struct {
 	InBlock uint // bit i: a flush lands INSIDE AddBlock of block i (after its header part, hook H5)
 	Pool    bool // pool transactions of the coming block, of the one after it, and conflicting ones
 	GC      bool // run the GC step after every flush (needs RemoveUntraceableBlocks)
+	Share   bool // plan I (ext_share_test.go): the latest state is also read through the trie after OP2, T1 and T2
+	Full    uint // if not 0: bit i = everything is observed after block i; at the other boundaries only height, block hash, state root and execution results
 }
 
 type histKey string
@@ -292,12 +295,23 @@ func (sc *scenario) runVariant(h []int, v variant) (blocks int, rec *caseRec) {
 			}
 			w = sc.world.Attach(n)
 		}
+		if v.Full != 0 && v.Full&(1<<uint(i)) == 0 {
+			if d := lightDiff(n, want); len(d) != 0 {
+				return fail(i, "observation differs from the reference replica", d)
+			}
+			return nil
+		}
 		got, err := n.Observe(w.MaxID, w.Hashes())
 		if err != nil {
 			return fail(i, "observe: "+err.Error(), nil)
 		}
 		if d := want.Diff(got); len(d) != 0 {
 			return fail(i, "observation differs from the reference replica", d)
+		}
+		if v.Share {
+			if d := shTrieCheck(n, i, got); len(d) != 0 {
+				return fail(i, "latest state incomplete in the trie", append(d, shDiagnose(n, sc.tpls[h[0]].Name, i, "")...))
+			}
 		}
 		return nil
 	}
@@ -321,10 +335,19 @@ func (sc *scenario) runVariant(h []int, v variant) (blocks int, rec *caseRec) {
 		// get must be what the ledger stores (which in turn must equal the reference)
 		execs := make(chan *state.AppExecResult, len(b.Transactions)+8)
 		n.BC.SubscribeForExecutions(execs)
-		err = n.BC.AddBlock(b)
+		// a Go panic inside block processing (the reference counting of the trie panics on a negative counter)
+		// poisons the instance (locks stay taken): it is reported like a rejection and the node is dropped
+		if perr := chainx.Try(func() { err = n.BC.AddBlock(b) }); perr != nil {
+			n = nil
+			return blocks, fail(i, "block made the variant panic: "+perr.Error(), shDiagnose(nil, sc.tpls[h[0]].Name, i, perr.Error()))
+		}
 		n.BC.VerifSetPointHook(nil)
 		if err != nil {
-			return blocks, fail(i, "block rejected by the variant: "+err.Error(), nil)
+			var d []string
+			if v.Share {
+				d = shDiagnose(n, sc.tpls[h[0]].Name, i-1, "")
+			}
+			return blocks, fail(i, "block rejected by the variant: "+err.Error(), d)
 		}
 		blocks++
 		guard := time.After(30 * time.Second) // liveness guard only: a late dispatcher skips the comparison
@@ -351,6 +374,36 @@ func (sc *scenario) runVariant(h []int, v variant) (blocks int, rec *caseRec) {
 		}
 	}
 	return blocks, nil
+}
+
+// lightDiff compares what is cheap to read: height, block hash, state root (it commits to the whole
+// contract storage) and the execution results of the last block.
+func lightDiff(n *chainx.Node, want *chainx.Obs) []string {
+	bc := n.BC
+	var d []string
+	h := bc.BlockHeight()
+	if h != want.Height || bc.CurrentBlockHash().StringLE() != want.Hash {
+		return []string{fmt.Sprintf("height/hash: %d %s != %d %s", want.Height, want.Hash, h, bc.CurrentBlockHash().StringLE())}
+	}
+	sr, err := bc.GetStateRoot(h)
+	if err != nil {
+		return []string{"state root: " + err.Error()}
+	}
+	if sr.Root.StringLE() != want.StateRoot {
+		d = append(d, fmt.Sprintf("state_root: %s != %s", want.StateRoot, sr.Root.StringLE()))
+	}
+	b, err := bc.GetBlock(bc.CurrentBlockHash())
+	if err != nil {
+		return append(d, "block: "+err.Error())
+	}
+	aers, err := n.BlockAERs(b)
+	if err != nil {
+		return append(d, err.Error())
+	}
+	if aers != want.AERs {
+		d = append(d, "aers: "+want.AERs+" != "+aers)
+	}
+	return d
 }
 
 // pool fills the variant's mempool with things the reference never sees.
@@ -586,6 +639,13 @@ func TestCheck(t *testing.T) {
 	vk.UseT(t)
 	r := vk.Start("C01", "model_checking", 175*time.Second, 25*time.Minute)
 	defer vk.CleanScratch()
+	stopProf := func() {}
+	if p := os.Getenv("C01_CPUPROF"); p != "" { // development aid
+		if f, err := os.Create(p); err == nil {
+			_ = pprof.StartCPUProfile(f)
+			stopProf = func() { pprof.StopCPUProfile(); f.Close() }
+		}
+	}
 	fams := []family{
 		{Name: "single", MTB: 6},
 		{Name: "single-srih", SRIH: true, MTB: 6},
@@ -712,7 +772,9 @@ func TestCheck(t *testing.T) {
 				// plan H (ext_thresh_test.go): election inputs crossing a threshold
 				paths = append(paths, thrPaths(r.Thorough(), 6, f.Name == "multi-faun")...)
 			case f.Name == "single":
-				paths = crossPaths(r.Thorough(), 1) // one-block epochs: the committee is refreshed every block
+				// plan I (ext_share_test.go) first: shared MPT nodes x flush schedule on the reference-counting trie modes
+				paths = shPaths(r.Thorough())
+				paths = append(paths, crossPaths(r.Thorough(), 1)...) // one-block epochs: the committee is refreshed every block
 				paths = append(paths, thrPaths(r.Thorough(), 1, true)...)
 			case f.Name == "single-hf":
 				paths = hfPaths()
@@ -936,25 +998,40 @@ func TestCheck(t *testing.T) {
 			}
 		}
 	}
+	stopProf()
+	shCov := shStats(xscs, xbuilt)
+	shScalar := func(k string) any {
+		if shCov == nil {
+			return 0
+		}
+		return shCov[k]
+	}
 	r.Finish(map[string]any{
-		"plan_G_groups":                 xcount,
-		"plan_H_election_thresholds":    thrStats(xscs, xbuilt),
-		"plan_G_paths":                  len(xscs),
-		"plan_G_distinct_final_answers": xoutcomes.Len(),
-		"plan_G_templates":              min(len(xscs), 1) * len(crossTemplates()),
-		"plan_G_probe_parts_dropped":    int(probeDropped.Load()),
-		"states":                        states.Len(),
-		"transitions":                   int(blocks.Get()),
-		"traces_validated_against_impl": int(runs.Get()),
-		"histories":                     int(hist.Get()),
-		"distinct_state_roots":          roots.Len(),
-		"plans":                         "A: full alphabet of the tier, depth 2, all variants; B (thorough only): quick alphabet, depth 3, basic variants; C (single families): value flip/delete/re-create alphabet, depth 5, pruning/GC/latest-state and restart variants; D (single families): Policy whitelisted-method fee set / set again / removed / used, depth 4, same variants; F (single families): oracle request answered 0..MaxTraceableBlocks+2 blocks later, all variants; E (single families): candidate life cycle toggles (vote / registration) + idle blocks, depth 7 (<= 2 idle) / 8, restart variants; G (multi; single for designate/setters; single-hf for the block list across Faun): cross-native side effects (Policy block/unblock of candidate / voter / committee member / NEO holder / contract, Management destroy/update of a voting contract, deploy of a blocked hash, re-designation of notary/oracle/state validator nodes with the old list used in the same block, setters of NEO/Policy/Notary/Oracle values) at epoch phases first/inner/last block, history continued over two epoch boundaries + probe block, replayed with ONE restart after block k for every k from the block before the event on; H (ext_thresh_test.go; single, multi-faun, a few on multi): election inputs crossing a threshold - voter turnout exactly at / one below / above 20% of the supply, registered candidates at n-1 / n / n+1 of the committee size, votes in a tie - crossed by ONE operation (vote, unvote, vote change, partial / whole-balance transfer from and to voters, unregistration with votes and the votes leaving later in one go, re-registration, registration by GAS payment, Policy block/unblock of a voter or candidate, NEO setters next to a vote) or by a pair (there and back again), same continuation and variants as G",
-		"block_alphabet":                tplNames(r),
-		"families":                      []string{"single", "single-srih", "multi", "multi-srih", "single-hf (Echidna@4, Faun@5, Gorgon@6)", "multi-faun (plan G only: 4/6 with every hardfork from genesis; 'multi' has Echidna@5 and no Faun)"},
-		"preamble_pads":                 pads,
-		"variants":                      names,
-		"variant_count":                 len(vs),
-		"rule":                          "every history = preamble + depth blocks from the block alphabet (all K^depth), on every family; each replayed on every variant; state = (family, height, state root, variant)",
+		"plan_I_chains":                           shScalar("chains"),
+		"plan_I_distinct_group_histories":         shScalar("distinct_group_histories"),
+		"plan_I_group_runs":                       shScalar("group_runs"),
+		"plan_I_group_runs_with_a_shared_leaf":    shScalar("group_runs_with_a_shared_leaf"),
+		"plan_I_variant_runs":                     shScalar("variant_runs"),
+		"plan_I_trie_reads_compared_with_storage": shScalar("trie_reads_compared_with_storage"),
+		"plan_G_groups":                           xcount,
+		"plan_H_election_thresholds":              thrStats(xscs, xbuilt),
+		"plan_I_shared_nodes":                     shCov,
+		"plan_G_paths":                            len(xscs), // plans G, H and I together
+		"plan_G_distinct_final_answers":           xoutcomes.Len(),
+		"plan_G_templates":                        min(len(xscs), 1) * len(crossTemplates()),
+		"plan_G_probe_parts_dropped":              int(probeDropped.Load()),
+		"states":                                  states.Len(),
+		"transitions":                             int(blocks.Get()),
+		"traces_validated_against_impl":           int(runs.Get()),
+		"histories":                               int(hist.Get()),
+		"distinct_state_roots":                    roots.Len(),
+		"plans":                                   "A: full alphabet of the tier, depth 2, all variants; B (thorough only): quick alphabet, depth 3, basic variants; C (single families): value flip/delete/re-create alphabet, depth 5, pruning/GC/latest-state and restart variants; D (single families): Policy whitelisted-method fee set / set again / removed / used, depth 4, same variants; F (single families): oracle request answered 0..MaxTraceableBlocks+2 blocks later, all variants; E (single families): candidate life cycle toggles (vote / registration) + idle blocks, depth 7 (<= 2 idle) / 8, restart variants; G (multi; single for designate/setters; single-hf for the block list across Faun): cross-native side effects (Policy block/unblock of candidate / voter / committee member / NEO holder / contract, Management destroy/update of a voting contract, deploy of a blocked hash, re-designation of notary/oracle/state validator nodes with the old list used in the same block, setters of NEO/Policy/Notary/Oracle values) at epoch phases first/inner/last block, history continued over two epoch boundaries + probe block, replayed with ONE restart after block k for every k from the block before the event on; H (ext_thresh_test.go; single, multi-faun, a few on multi): election inputs crossing a threshold - voter turnout exactly at / one below / above 20% of the supply, registered candidates at n-1 / n / n+1 of the committee size, votes in a tie - crossed by ONE operation (vote, unvote, vote change, partial / whole-balance transfer from and to voters, unregistration with votes and the votes leaving later in one go, re-registration, registration by GAS payment, Policy block/unblock of a voter or candidate, NEO setters next to a vote) or by a pair (there and back again), same continuation and variants as G; I (ext_share_test.go; single, runs first): shared MPT nodes x flush schedule on the reference-counting trie modes - groups of two keys and two values of their own (kinds: deep below stored prefix keys / shallow / same key under two contracts / one key a prefix of the other), state after block S in {absent, A, B}^2 up to A<->B, blocks OP1 and OP2 apply {nothing, put A, put B, delete} to each key (4 x 16 x 16 group histories, 256 per chain side by side), T1 flips / creates every key, six idle blocks (GC sweeps), T2 deletes the first key of every group; replayed on KeepOnlyLatestState and RemoveUntraceableBlocks+GC with every subset of the flush points {before S, after S, OP1, OP2, T1} x restart sets {none, after S, after OP2, after both}; additional oracle: the latest state read through the trie equals the contract storage after OP2, T1 and T2",
+		"block_alphabet":                          tplNames(r),
+		"families":                                []string{"single", "single-srih", "multi", "multi-srih", "single-hf (Echidna@4, Faun@5, Gorgon@6)", "multi-faun (plan G only: 4/6 with every hardfork from genesis; 'multi' has Echidna@5 and no Faun)"},
+		"preamble_pads":                           pads,
+		"variants":                                names,
+		"variant_count":                           len(vs),
+		"rule":                                    "every history = preamble + depth blocks from the block alphabet (all K^depth), on every family; each replayed on every variant; state = (family, height, state root, variant)",
 	}, []string{
 		"backend batch atomicity/durability trusted; restarts are graceful (crashes are C02)",
 		"pruned variants are compared at the current height only (everything compared there is retained)",
@@ -989,13 +1066,16 @@ func replay(r *vk.Run, fams []family, depth int) {
 	local := append(append(append(flipTemplates(), settingTemplates()...), lifecycleTemplates()...), crossTemplates()...)
 	seq := false // plan G histories are built on one reference node
 	for _, name := range c.History {
-		seq = seq || strings.HasPrefix(name, "x-") || strings.HasPrefix(name, thrPrefix)
+		seq = seq || strings.HasPrefix(name, "x-") || strings.HasPrefix(name, thrPrefix) || strings.HasPrefix(name, shPrefix)
 	}
 	var tpls []chainx.Tpl
 	for _, name := range c.History {
 		found := false
 		if strings.HasPrefix(name, thrPrefix) {
 			tpls, found = append(tpls, thrTpl(name)), true
+		}
+		if strings.HasPrefix(name, shPrefix) {
+			tpls, found = append(tpls, shTpl(name)), true
 		}
 		for _, t := range local {
 			if found {
@@ -1045,6 +1125,9 @@ func replay(r *vk.Run, fams []family, depth int) {
 				if x.Name == c.Variant && !found {
 					v, found = x, true
 				}
+			}
+			if sv, ok := shVariantByName(c.Variant); ok && !found {
+				v, found = sv, true
 			}
 			if !found {
 				v = variant{Name: c.Variant, Backend: strings.SplitN(c.Variant, "/", 2)[0], Flush: c.Flush, Restart: c.Restart}
